@@ -43,7 +43,7 @@ m = {
     },
     'engines': [{'name': 'coq-proof+correspondence', 'path': '/verif/check',
                  'serves_properties': [c['property_id'] for c in checks],
-                 'kind_free_text': 'Coq 8.16 theorems about an executable Gallina model (coq/), tables regenerated from /repo by tools/translate.py, extracted OCaml model run side by side with the implementation (harness/), statement-level oracles from the extracted Coq specification'}],
+                 'kind_free_text': 'Coq 8.16 theorems about an executable Gallina model (coq/), tables and six small functions regenerated from /repo by tools/translate_rt.py / tools/translate.py / tools/translate_fns.py, extracted OCaml model run side by side with the implementation (harness/), statement-level oracles from the extracted Coq specification'}],
     'checks': checks,
     'not_applicable': na,
     'notes': 'Repairs of genuine defects are unguarded "fix:" commits in /repo (listed in known_findings.json); no hook commits exist.',
